@@ -190,6 +190,9 @@ class StepChecker:
             else:
                 key = op + ("+cand" if cands else "")
                 self.stats["unmodelled_rewrite"][key] = self.stats["unmodelled_rewrite"].get(key, 0) + 1
+                ex = self.stats.setdefault("unmodelled_examples", {})
+                if len(ex.setdefault(op, [])) < 4:
+                    ex[op].append("%s => %s" % (E.sexpr(n)[:200], E.sexpr(rt)[:200]))
         # second phase: rewrites not explained by a schema go to the proven certificate checks: `acEquiv`/`bcEquiv` (associative-
         # commutative nodes) and `bitsEquiv` (rewrites that only move bits around)
         if pending_ac:
